@@ -39,7 +39,9 @@ NEGATIVES = ['unknown_input', 'foreign_block', 'cblock_event_dest_obj', 'cblock_
              'not_two_inputs', 'not_no_input', 'compare_named', 'override_missing', 'override_group',
              'positional_list', 'duplicate_name', 'connect_twice', 'not__x', 'undef_const', 'undef_bare',
              'unknown_event_dest', 'unknown_control', 'unknown_add_output',
-             'foreign_same_name', 'unknown_prefix_name', 'double_shortcut']
+             'foreign_same_name', 'unknown_prefix_name', 'double_shortcut',
+             # a reference of the wrong kind following a legal reference to the same name
+             'cblock_dest_after_anyref', 'cblock_nii_after_anyref', 'cblock_dest_after_input_ref']
 
 
 class Noop(edzed.CBlock):
@@ -153,8 +155,6 @@ def execute(case):
             return edzed.Const(v) if r[2] else v
         events = []
         filters = []
-        LATE_NEG = ('cblock_event_dest_obj', 'cblock_event_dest_name', 'unknown_event_dest', 'unknown_control',
-                    'unknown_add_output')
 
         def make_refs():
             for e in case['events']:
@@ -179,6 +179,17 @@ def execute(case):
                 edzed.IfOutput('no_such_block')
             elif neg == 'unknown_add_output':
                 edzed.DataEdit.add_output('k', 'no_such_block')
+            elif neg == 'cblock_dest_after_anyref':
+                edzed.Event('s0', 'put', efilter=edzed.IfOutput('c0'))      # any block may be a control block
+                edzed.Event('c0', 'put')                                    # but not a destination
+            elif neg == 'cblock_nii_after_anyref':
+                edzed.DataEdit.add_output('k', 'c0')
+                edzed.NotIfInitialized('c0')
+            elif neg == 'cblock_dest_after_input_ref':
+                if not case.get('late'):
+                    Noop('neg').connect('c0')
+                edzed.IfOutput('c0')
+                edzed.Event('c0', 'put')
 
         try:
             for name in case['order']:
